@@ -9,7 +9,9 @@ Pipeline:
  (D) correspondence: deterministic single-loop op sequences (give / take / select / abandon / close / pump) on the real
      implementation vs the Lean model driver, compared after every op (queue lengths, who was resumed with what)
  (E) direct oracle on the implementation: generated producer/consumer topologies over OS threads (harness/C08/topo.py),
-     corpus scenarios (corpus/C08/*.janet), under plain, ASan and TSan builds, several interleavings per scenario
+     corpus scenarios (corpus/C08/*.janet), under plain, ASan and TSan builds, several interleavings per scenario;
+     reference counts / finalizers: rcprobe.c + rcscn.py (shared objects re-sent to threads that already hold them; real
+     refcount == live references at quiescent points; every object finalized exactly once after the last drop)
      (LD_PRELOAD perturbation shim harness/C08/perturb.c: seeded yields/sleeps at pthread_mutex_lock and pipe writes).
 """
 import concurrent.futures as cf
@@ -26,6 +28,7 @@ from tools.gen.csrc import ExtractError
 sys.path.insert(0, os.path.join(VERIF, "harness", "C08"))
 import topo  # noqa: E402
 import seqops  # noqa: E402
+import rcscn  # noqa: E402
 from tools.gen import thread as gen_thread  # noqa: E402
 
 THEOREMS = [
@@ -39,6 +42,7 @@ THEOREMS = [
     "JanetModel.Props.C08.refcount_ge_reachers",
     "JanetModel.Props.C08.refcount_freed_after_last_drop",
     "JanetModel.Props.C08.refcount_counterexample",
+    "JanetModel.Props.C08.refcount_leak_counterexample",
 ]
 CURRENT = [
     "JanetModel.Thread.Current.exactly_once_current",
@@ -190,7 +194,10 @@ def run(ctx, only_replay=None):
                                 preload=shim if (perturb and vn == "plain" and shim) else None)
         if vn == "tsan" and res["rc"] == 66:
             res["rc"] = 0  # TSan's exit status when it printed reports; the reports themselves are handled below
-        bad = topo.oracle(scn, res)
+        try:
+            bad = topo.oracle(scn, res)
+        except Exception as e:  # output of the implementation that the oracle cannot interpret is a failure of the run, not of the check
+            bad = [("malformed-receipt", "the logs of this run could not be interpreted (%r): the implementation produced values of an unexpected shape" % (e,))]
         for kind, fn in san_reports(res["stderr"]):
             bad.append((san_sig(kind, fn), "sanitizer report %s in %s" % (kind, fn)))
         return job, res, bad
@@ -224,6 +231,37 @@ def run(ctx, only_replay=None):
             ctx.violation(sig, {"kind": "topology", "variant": job[0], "index": job[1], "perturb": job[3], "pseed": job[4],
                                 "scenario": topo.scn_to_json(job[2]), "logs": res["logs"], "stderr": res["stderr"][-3000:], "all": bad[:10]},
                           what="[%s build] %s" % (job[0], why))
+    # reference counts / finalizers of shared abstracts (harness/C08/rcprobe.c + rcscn.py)
+    nrc = {"plain": 60 if quick else 1500, "asan": 20 if quick else 300}
+    rc_runs, rc_cov = 0, {"echo": 0, "hold": 0, "drop": 0, "self": 0, "check": 0}
+    for vn in ("plain", "asan"):
+        if variants.get(vn) is None:
+            continue
+        try:
+            rcexe = ctx.build.harness(vn, "c08rc", [os.path.join(VERIF, "harness/C08/rcprobe.c")])
+        except BuildError as e:
+            broken.append("refcount probe harness does not compile against the current tree (%s): %s" % (vn, str(e)[-300:]))
+            continue
+        rjobs = [rcscn.gen(ctx.rng.fork("rc-%s-%d" % (vn, i))) for i in range(nrc[vn])]
+
+        def rone(scn, rcexe=rcexe):
+            rc, out, err = rcscn.run_one(rcexe, scn, env=dict(os.environ, **SAN_ENV))
+            bad = rcscn.oracle(scn, rc, out, err)
+            for kind, fn in san_reports(err):
+                bad.append((san_sig(kind, fn), "sanitizer report %s in %s" % (kind, fn)))
+            return scn, rc, out, err, bad
+        with cf.ThreadPoolExecutor(8) as ex:
+            for scn, rc, out, err, bad in ex.map(rone, rjobs):
+                rc_runs += 1
+                for op in scn["ops"]:
+                    rc_cov[op[0]] += 1
+                for sig, why in bad:
+                    if sig in reported:
+                        continue
+                    reported.add(sig)
+                    ctx.violation(sig, {"kind": "refcount", "variant": vn, "scenario": scn, "script": rcscn.render(scn), "rc": rc,
+                                        "stdout": out[-3000:], "stderr": err[-2000:], "all": bad[:6]},
+                                  what="[%s build] %s" % (vn, why))
     # corpus scenarios (targeted, deterministic)
     ncorp = 0
     for fn, meta in corpus_files():
@@ -250,7 +288,7 @@ def run(ctx, only_replay=None):
         ctx.violation("broken:" + broken[0][:80], {"kind": "broken-obligation", "broken": broken, "first_diffs": corr_diffs[:5]}, found=False,
                       what="no longer shown to hold: " + "; ".join(broken)[:700])
     cov = {
-        "evaluations": nrun + ncorp + len(seqs),
+        "evaluations": nrun + ncorp + len(seqs) + rc_runs,
         "distinct_nontrivial": len(set(json.dumps(topo.scn_to_json(j[2]), sort_keys=True) for j, r, b in results if r is not None)) + len(seqs),
         "rule": "topology = random (1..4 thread channels, capacities 0..8, 1..5 producers x 1..5 consumers = 2..8 OS threads, take/select/rselect consumers, "
                 "scripted abandoned waits (deadline/cancel/select) and timer-driven racing aborts, close while blocked, give/select-give producers, "
@@ -264,6 +302,7 @@ def run(ctx, only_replay=None):
         "messages_checked": sum(topo.describe(j[2])["messages"] for j, r, b in results if r is not None),
         "feature_counts": dict(sorted(cov_feat.items())),
         "corpus_runs": ncorp,
+        "refcount_runs": rc_runs, "refcount_ops": rc_cov,
         "opseq": {"sequences": len(seqs), "compared_lines": corr_lines, "diffs": len(corr_diffs), "coverage": seq_cov},
         "source_flags": facts["flags"] if facts else None,
         "sched_point_hook_present": bool(facts and facts.get("hook_present")),
@@ -311,6 +350,16 @@ def replay(ctx, path):
         print("observed:", last, "rc", rc)
         if last != r.get("expected"):
             ctx.violation(r["signature"], dict(r, replayed=True), what="replay reproduces: " + r.get("what", ""))
+    elif r.get("kind") == "refcount":
+        exe = ctx.build.harness(r.get("variant", "plain"), "c08rc", [os.path.join(VERIF, "harness/C08/rcprobe.c")])
+        rc, out, err = rcscn.run_one(exe, r["scenario"], env=dict(os.environ, **SAN_ENV))
+        scn = r["scenario"]
+        scn["ops"] = [tuple(o) for o in scn["ops"]]
+        bad = rcscn.oracle(scn, rc, out, err)
+        print(out[-1500:])
+        print("replay:", bad)
+        if bad:
+            ctx.violation(r["signature"], dict(r, replayed=True), what="replay reproduces: " + bad[0][1])
     elif r.get("kind") == "opseq":
         return run(ctx)
     else:
